@@ -76,15 +76,39 @@ def run_partA(case, ctx):
 
     root = case["root"]
     keys = [_key(r) for r in case["rules"]]
-    tm = TableMethod()
-    for k in keys:
-        tm.add_rule_key(k)
+    stub_db = None
+    if case.get("via_db"):
+        # the same universe inserted through the database's own add()
+        from comb_spec_searcher.rule_db.forest import RuleDBForest
+
+        from vf.props.c03 import _StubRule, _StubSearcher
+
+        stub_db = RuleDBForest(reverse=False)
+        stub_db.link_searcher(_StubSearcher(root))
+        for k in keys:
+            try:
+                stub_db.add(k.parent, k.children, _StubRule(k))
+            except Exception as e:
+                ctx.fail("db-add", f"RuleDBForest.add({k}) raised {describe_exc(e)}", "db-add/raises")
+                return
+        tm = stub_db.table_method
+        ctx.label("via-RuleDBForest.add")
+    else:
+        tm = TableMethod()
+        for k in keys:
+            tm.add_rule_key(k)
+    from vf.oracles.lfp import INF, lfp
+
+    truly = lfp([(r[0], r[1], r[2]) for r in case["rules"]]).get(root, 0) == INF
     if not tm.is_pumping(root):
+        ctx.check(not truly, "pumping-missed", f"root {root} pumps in the inserted universe {case['rules']} but the database does not report it")
         ctx.label("root-not-pumping")
         return
     ctx.label("root-pumping")
+    if stub_db is not None:
+        ctx.check(stub_db.has_specification(), "pumping-missed", "the table method says the root pumps, has_specification() is False")
     try:
-        ex = ForestRuleExtractor(root, _StubDB(tm), None, None)
+        ex = ForestRuleExtractor(root, stub_db if stub_db is not None else _StubDB(tm), None, None)
     except Exception as e:
         ctx.fail("extractor", f"ForestRuleExtractor raised {describe_exc(e)} on {case['rules']} root {root}", "extractor/raises")
         return
@@ -141,6 +165,20 @@ def layered_case(draw, tier="quick"):
 
 @st.composite
 def universe_case(draw, tier="quick"):
+    case = draw(_universe_case(tier))
+    if draw(st.integers(0, 2)) == 0:
+        case["via_db"] = True
+        if draw(st.booleans()) and case["rules"]:
+            # the same parent and children once more with other shifts and bucket
+            r = draw(st.sampled_from(case["rules"]))
+            twin = [r[0], list(r[1]), [s_ + draw(st.sampled_from([-1, 1, 1, 2])) for s_ in r[2]], draw(st.sampled_from(BUCKETS4))]
+            case["rules"].insert(draw(st.integers(0, len(case["rules"]))), twin)
+            case.pop("perm2", None)
+    return case
+
+
+@st.composite
+def _universe_case(draw, tier="quick"):
     if draw(st.booleans()):
         return draw(layered_case(tier))
     n = draw(st.integers(1, 7 if tier == "quick" else 9))
